@@ -457,7 +457,10 @@ def granular_add_contract():
         yield p, E.Seq(lambda i: Str(MK(i)), MK_N)
 
     def h_validate(x, e, p, site):
-        ok = [ast.unparse(a) for a in e.args] == ['obj', 'selectors'] and p.env['selectors'].sort == 'selset'
+        actual = {k.arg: ast.unparse(k.value) for k in e.keywords}
+        for name, a in zip(('obj', 'selectors'), e.args): actual[name] = ast.unparse(a)
+        if set(actual) != {'obj', 'selectors'}: raise Unsupported(site + ' validate call shape')          # not recognised: undecided, not an alarm
+        ok = actual == {'obj': 'obj', 'selectors': 'selectors'} and p.env['selectors'].sort == 'selset'
         x.oblige('call(utils.validate): the object and the selectors of this call are validated before anything is built', p.pc, z3.BoolVal(bool(ok)), p.exact, 'call-requires')
         yield p.fork(), Exc('InvalidSelectorError', site)
         q = p.fork(); q.ghost = dict(q.ghost, validated=True)
@@ -503,9 +506,11 @@ def granular_add_contract():
 
     def h_new_version(x, e, p, site):
         kws = {k.arg: k.value for k in e.keywords}
-        ok = [ast.unparse(a) for a in e.args] == ['obj'] and set(kws) == {'granular_markings', 'allow_custom'}
+        first = ast.unparse(e.args[0]) if len(e.args) == 1 else ast.unparse(kws.pop('data')) if (not e.args and 'data' in kws) else None
+        if first is None: raise Unsupported(site + ' new_version call shape')          # not recognised: undecided, not an alarm
+        ok = first == 'obj' and set(kws) == {'granular_markings', 'allow_custom'}
         x.oblige('call(new_version): the new version is made from this object, changing granular_markings only', p.pc, z3.BoolVal(bool(ok)), p.exact, 'call-requires')
-        if not ok: raise Unsupported(site + ' new_version call shape')
+        if 'granular_markings' not in kws: raise Unsupported(site + ' new_version call shape')
         for p1, v in x.ev(kws['granular_markings'], p):
             if isinstance(v, Exc): yield p1, v; continue
             vv = view_of(v)
@@ -607,9 +612,11 @@ def granular_remove_contract():
 
     def h_new_version(x, e, p, site):
         kws = {k.arg: k.value for k in e.keywords}
-        ok = [ast.unparse(a) for a in e.args] == ['obj'] and set(kws) == {'granular_markings', 'allow_custom'}
+        first = ast.unparse(e.args[0]) if len(e.args) == 1 else ast.unparse(kws.pop('data')) if (not e.args and 'data' in kws) else None
+        if first is None: raise Unsupported(site + ' new_version call shape')          # not recognised: undecided, not an alarm
+        ok = first == 'obj' and set(kws) == {'granular_markings', 'allow_custom'}
         x.oblige('call(new_version): the new version is made from this object, changing granular_markings only', p.pc, z3.BoolVal(bool(ok)), p.exact, 'call-requires')
-        if not ok: raise Unsupported(site + ' new_version call shape')
+        if 'granular_markings' not in kws: raise Unsupported(site + ' new_version call shape')
         for p1, v in x.ev(kws['granular_markings'], p):
             if isinstance(v, Exc): yield p1, v; continue
             vv = view_of(v)
